@@ -3,8 +3,12 @@ pub mod common;
 pub mod c01;
 pub mod c02;
 pub mod c03;
+pub mod c07;
 pub mod c08;
+pub mod c09;
 pub mod c10;
+pub mod c16;
+pub mod c17;
 
 use crate::core::{Block, Report};
 
@@ -13,8 +17,12 @@ pub fn collect(prop: &str, blocks: &mut Vec<Block>, setup: &mut Report) {
         "C01" => c01::collect(blocks, setup),
         "C02" => c02::collect(blocks, setup),
         "C03" => c03::collect(blocks, setup),
+        "C07" => c07::collect(blocks, setup),
         "C08" => c08::collect(blocks, setup),
+        "C09" => c09::collect(blocks, setup),
         "C10" => c10::collect(blocks, setup),
+        "C16" => c16::collect(blocks, setup),
+        "C17" => c17::collect(blocks, setup),
         "list" => {}
         _ => setup.machinery.push(format!("unknown property {prop}")),
     }
